@@ -140,6 +140,13 @@ func handleSubStr(params internal.HandlerFuncParams) ([]byte, error) {
 	if end < 0 {
 		end = len(value) - internal.AbsInt(end)
 	}
+	// Indices that still point before the start of the string are clamped to it.
+	if start < 0 {
+		start = 0
+	}
+	if end < 0 {
+		end = 0
+	}
 
 	if end >= 0 && end >= start {
 		end += 1
